@@ -65,13 +65,9 @@ func errClass(err error) int {
 	if _, ok := err.(*wire.MessageError); ok {
 		return 4
 	}
-	switch err.Error() {
-	case "p value is not set, cannot build":
-		return 5
-	case "m value is not set, cannot build":
-		return 6
-	}
-	return 9
+	// any other error value (the builder's two anonymous fmt.Errorf values "p/m value is not set") is one class:
+	// error TEXT is not an observable of the property, and re-wording a message must not raise an alarm
+	return 5
 }
 
 type spec struct {
@@ -797,7 +793,7 @@ func familyBuilder(rng *vh.RNG) {
 				wantCls = 5
 			}
 			if wantCls == 0 && refM == 0 {
-				wantCls = 6
+				wantCls = 5
 			}
 			hist := append(append([]string{}, opsJS...), "Build()")
 			replay := map[string]interface{}{"start": startJS, "ops": hist, "impl_class": cls, "required_class": wantCls}
@@ -946,7 +942,7 @@ func familyBuilder(rng *vh.RNG) {
 			wantCls = 5
 		}
 		if wantCls == 0 && refM == 0 {
-			wantCls = 6
+			wantCls = 5
 		}
 		replay := map[string]interface{}{"start": startJS, "ops": opsJS, "impl_class": cls, "required_class": wantCls}
 		if (refErr != 0) != (kerr != nil) || (kerr == nil && k != refKey) {
